@@ -15,7 +15,8 @@ from sim import devices
 from sim.canon import Log, dec_table, enc_table, canon_rows, canon_row, enc
 from sim.catalogue import (f_reducer, f_groupmapper, f_fold, _count)
 from sim.core import outcome, ddmin_lists
-from sim.devices import SimTable, SimSourceError, SOURCE_ERROR_KINDS
+from sim.devices import (SimTable, SimSourceError, SOURCE_ERROR_KINDS,
+                         INJECTED_SOURCE_FAILURES)
 from sim.gen import gen_table
 from sim.loader import load_petl
 
@@ -447,7 +448,7 @@ def _run_history(e, case, log, sb, probes):
                         break
                 if hasattr(it, 'close'):
                     it.close()
-        except SimSourceError:
+        except INJECTED_SOURCE_FAILURES:
             # injected: this pass failed, it counts as an abandoned one
             probes['pass-failed-by-injection'] = 1
             log.add('pass-failed', vi)
